@@ -21,6 +21,6 @@ Extraction "model.ml"
   Merger.merge_run Merger.mf_concat Merger.mf_sortcat Merger.mf_fail_at Merger.merge_next Merger.init_heap
   Sorter.s_new Sorter.s_insert Sorter.s_finish Sorter.sorter_run Sorter.sorter_spec Sorter.clamp_threshold
   Sorter.clamp_chunks Sorter.default_capacity Sorter.round_up Sorter.n_new Sorter.n_insert Sorter.n_finish
-  Sorter.fs_run Sorter.cr_fail_at Sorter.cr_never
+  Sorter.fs_run Sorter.cr_fail_at Sorter.cr_never Sorter.fs_insert_r Sorter.fs_finish Sorter.creates
   IoModel.w_run_sched IoModel.w_run_fault IoModel.faulty_load IoModel.sk_bytes IoModel.load_block_sched
   StoreCheck.store_wf.
